@@ -102,10 +102,10 @@ def t_universe(n, offset, part, nparts):
 				sh.evals += 1
 				if A != B:
 					if not frac[i2][j2] < frac[i][j]:
-						sh.violation('strict-decrease', dict(A=subsets[i], B=subsets[j], x=x), '< %s' % frac[i][j], str(frac[i2][j2]))
+						sh.violation('strict-decrease', dict(A=subsets[i], B=subsets[j], x=x, dtype=base_dt), '< %s' % frac[i][j], str(frac[i2][j2]))
 					sh.count('strict_decrease_checked')
 				elif bits[i2][j2] != 0:
-					sh.violation('equal-stays-zero', dict(A=subsets[i], B=subsets[j], x=x), 0, bits[i2][j2])
+					sh.violation('equal-stays-zero', dict(A=subsets[i], B=subsets[j], x=x, dtype=base_dt), 0, bits[i2][j2])
 			if A and B and A != B and A & B:
 				sh.nontrivial += 1
 			sh.outcome(b)
@@ -136,8 +136,8 @@ def replay(case, kind=None):
 	def d(X, Y, da, db):
 		return f32bits(jaccarddist(np.array(X, dtype=da), np.array(Y, dtype=db)))
 	A, B = case['A'], case['B']
-	da = case.get('da', case.get('dtype'))
-	db = case.get('db', case.get('dtype'))
+	da = case.get('da', case.get('dtype')) or 'u8'
+	db = case.get('db', case.get('dtype')) or 'u8'
 	sa, sb = set(A), set(B)
 	b = d(A, B, da, db)
 	fr = R.f32_bits_to_fraction
